@@ -109,7 +109,8 @@ def _mc_impl(v):
     generation mutations (seeded changes C04/C05) must be refuted by the same invariants."""
     quick = v.tier == "quick"
     calls = 6 if quick else 7
-    both = "INVARIANT OneCopy\nINVARIANT RefinesCore"
+    both = ("INVARIANT OneCopy\nINVARIANT RefinesCore\nINVARIANT CacheSound\nINVARIANT TagBound\n"
+            "INVARIANT SidsUnique\nINVARIANT GensUnique\nPROPERTY GenMonotone")
     cfg = lib.write_cfg("MC_IndexImpl_ideal_run.cfg", IMPL_CFG.format(ids="{1, 2}", calls=calls, empty="FALSE", gentag="FALSE", invs=both, extra=""))
     ideal = lib.tlc_mc("IndexImpl.tla", cfg, timeout=3000)
     lib.require_mc_ok(ideal, "IndexImpl (as built)", need_actions=["NewWriter", "DropWriter", "Add", "Delete", "Commit", "Rollback", "Compact"])
